@@ -213,6 +213,14 @@ func (v Value) number() _number {
 	return num
 }
 
+// toInt64Modulo32 converts a finite float64 to an int64 that is congruent to its
+// truncated value modulo 2^32. A direct conversion is only defined by Go when the
+// value fits an int64 (on amd64 it yields MinInt64 otherwise), which made
+// ToInt32/ToUint32/ToUint16 return 0 for every |x| >= 2^63.
+func toInt64Modulo32(value float64) int64 {
+	return int64(math.Mod(value, 4294967296))
+}
+
 // ECMA 262: 9.5.
 func toInt32(value Value) int32 {
 	switch value := value.value.(type) {
@@ -230,7 +238,7 @@ func toInt32(value Value) int32 {
 	}
 
 	// Convert to int64 before int32 to force correct wrapping.
-	return int32(int64(floatValue))
+	return int32(toInt64Modulo32(floatValue))
 }
 
 func toUint32(value Value) uint32 {
@@ -253,7 +261,7 @@ func toUint32(value Value) uint32 {
 	}
 
 	// Convert to int64 before uint32 to force correct wrapping.
-	return uint32(int64(floatValue))
+	return uint32(toInt64Modulo32(floatValue))
 }
 
 // ECMA 262 - 6.0 - 7.1.8.
@@ -273,7 +281,7 @@ func toUint16(value Value) uint16 {
 	}
 
 	// Convert to int64 before uint16 to force correct wrapping.
-	return uint16(int64(floatValue))
+	return uint16(toInt64Modulo32(floatValue))
 }
 
 // toIntSign returns sign of a number converted to -1, 0 ,1.
